@@ -128,6 +128,9 @@ def run_case(case, prefix=None):
                 else:
                     ptx.listen = True
                     sim.advance(300 * US)
+                    if len(call) > 1 and call[1] == "load" and mode == "ackpl":
+                        ptx.load_ack(b"\xee\xee", 1)  # an ACK payload nobody came to collect: not data for the next send()
+                        res.label("uncollected-ack-payload-before-send")
                     ptx.listen = False
                     if txa:
                         ptx.open_tx_pipe(unhex(txa["short"]))  # documented: re-open the TX pipe after pipe 0 was used for reading
@@ -377,8 +380,8 @@ def _enum_interleaved(depth, drv="full", peer="full"):
                         for i, (k, so) in enumerate(hist):
                             base.append(["send", "%02x%02x" % (0x20 + i, 0x66), False, 0, so] if k == "send" else ["resend", so])
                         for pos in range(1, d):
-                            for ins in (["read"], ["listen_cycle"], ["ctx"]):
-                                if ins[0] == "read" and mode != "ackpl":
+                            for ins in (["read"], ["listen_cycle"], ["listen_cycle", "load"], ["ctx"]):
+                                if (ins[0] == "read" or len(ins) > 1) and mode != "ackpl":
                                     continue
                                 yield {"drv": drv, "peer": peer, "rate": 1, "arc": 0, "ard": 1, "mode": mode, "listening": True,
                                        "ackpl": ackpl, "word": "".join(word), "default": "D", "calls": base[:pos] + [ins] + base[pos:]}
@@ -403,7 +406,7 @@ def strategy(drv="full", peer="full"):
         "ackpl": st.lists(st.binary(min_size=1, max_size=32).map(bytes.hex), max_size=3),
         "word": st.text(alphabet="DDPA", max_size=64),
         "default": st.sampled_from(["D", "D", "P", "A"]),
-        "calls": st.lists(st.one_of(send, send, send, sendl, sendl, resend, resend, st.just(["read"]), st.just(["listen_cycle"]), st.just(["ctx"])), min_size=1, max_size=6),
+        "calls": st.lists(st.one_of(send, send, send, sendl, sendl, resend, resend, st.just(["read"]), st.just(["listen_cycle"]), st.just(["listen_cycle", "load"]), st.just(["ctx"])), min_size=1, max_size=6),
         "txaddr": st.one_of(st.none(), st.none(), st.fixed_dictionaries({"short": st.binary(min_size=1, max_size=4).map(bytes.hex), "p0": st.binary(min_size=2, max_size=5).map(bytes.hex)})),
         "mcu": st.fixed_dictionaries({"spi": st.sampled_from([8, 20, 100, 400]), "jit": st.sampled_from([0, 30]),
                                       "seed": st.integers(0, 999)}),
